@@ -274,3 +274,69 @@ Proof.
     { destruct (str_eqb p f) eqn:E; [|reflexivity]. apply str_eqb_eq in E. subst. exfalso. apply Hnot. now left. }
     rewrite (IH (fun Hin => Hnot (or_intror Hin)) _ _ H). now apply fset_other.
 Qed.
+
+(* ---- registration histories (C17g) ------------------------------------------------------------------ *)
+Lemma key_eqb_eq a b : key_eqb a b = true -> a = b.
+Proof.
+  destruct a as [a1 a2], b as [b1 b2]; unfold key_eqb; cbn. intro H.
+  apply andb_prop in H. destruct H as [H1 H2]. apply str_eqb_eq in H1. apply str_eqb_eq in H2. now subst.
+Qed.
+Lemma key_eqb_refl a : key_eqb a a = true.
+Proof. destruct a; unfold key_eqb; cbn. now rewrite !str_eqb_refl. Qed.
+
+Lemma find_mounted_unique t m : NoDup (map mkey t) -> In m t -> find_mounted t (mkey m) = Some m.
+Proof.
+  induction t as [|a t IH]; intros Hnd Hin; [destruct Hin|].
+  unfold find_mounted. cbn. inversion Hnd as [|x l Hnot Hnd']; subst.
+  destruct (key_eqb (mkey a) (mkey m)) eqn:E.
+  - destruct Hin as [->|Hin]; [reflexivity|]. apply key_eqb_eq in E. exfalso. apply Hnot. rewrite E. now apply in_map.
+  - destruct Hin as [->|Hin]; [rewrite key_eqb_refl in E; discriminate|]. now apply IH.
+Qed.
+
+Lemma register_all_nth regs : forall k i r,
+  nth_error regs i = Some r -> nth_error (register_all k regs) i = Some (mount (k + i) r).
+Proof.
+  induction regs as [|a t IH]; intros k i r H; destruct i; cbn in *; try discriminate.
+  - inversion H; subst. now rewrite Nat.add_0_r.
+  - rewrite (IH (S k) i r H). cbn. now rewrite Nat.add_succ_r.
+Qed.
+
+(* registration i of ANY history answers a request addressed to it exactly as when it is the only
+   Register call the process ever made: whatever options the calls before and after it were given *)
+Theorem registration_as_alone regs i r q :
+  NoDup (map mkey (register_all 0 regs)) -> nth_error regs i = Some r ->
+  rq_key q = mkey (mount i r) ->
+  serve_reg (register_all 0 regs) q = serve_reg [mount i r] q.
+Proof.
+  intros Hnd Hi Hk. unfold serve_reg. rewrite Hk.
+  rewrite (find_mounted_unique _ (mount i r) Hnd).
+  - unfold find_mounted. cbn. now rewrite key_eqb_refl.
+  - apply (nth_error_In _ i). exact (register_all_nth regs 0 i r Hi).
+Qed.
+
+(* a Register call without WithErrorHandler / WithMux has no error handler / the default mux, whatever
+   else the process registered *)
+Definition is_hook (o : sopt) : bool := match o with OHook _ _ => true | _ => false end.
+Definition is_mux (o : sopt) : bool := match o with OMux _ => true | _ => false end.
+Lemma fold_no_hook opts : forall c, (forall o, In o opts -> is_hook o = false) ->
+  sc_hook (fold_left apply_sopt opts c) = sc_hook c.
+Proof.
+  induction opts as [|a t IH]; intros c H; cbn; [reflexivity|].
+  rewrite IH by (intros o Ho; apply H; now right).
+  specialize (H a (or_introl eq_refl)). destruct a; cbn in *; [reflexivity|discriminate].
+Qed.
+Lemma fold_no_mux opts : forall c, (forall o, In o opts -> is_mux o = false) ->
+  sc_mux (fold_left apply_sopt opts c) = sc_mux c.
+Proof.
+  induction opts as [|a t IH]; intros c H; cbn; [reflexivity|].
+  rewrite IH by (intros o Ho; apply H; now right).
+  specialize (H a (or_introl eq_refl)). destruct a; cbn in *; [discriminate|reflexivity].
+Qed.
+Theorem own_options_only k svc opts :
+  ((forall o, In o opts -> is_hook o = false) -> mt_hook (mount k (svc, opts)) = None) /\
+  ((forall o, In o opts -> is_mux o = false) -> mt_mux (mount k (svc, opts)) = []).
+Proof.
+  split; intro H; unfold mount, get_configuration; cbn.
+  - now rewrite fold_no_hook.
+  - now rewrite fold_no_mux.
+Qed.
